@@ -1368,6 +1368,11 @@ class Kconfig(object):
                 #           and choices every time we are loading the file.
                 for sym in self.unique_defined_syms:
                     sym._was_set = False
+                    if sym._kconfig_defaults is not None:
+                        # A default value injected from the configuration that is being replaced
+                        sym.defaults = sym._kconfig_defaults
+                        sym._kconfig_defaults = None
+                        sym._rec_invalidate()
                     if is_main_sdkconfig:
                         # What an earlier main sdkconfig said about a symbol says nothing about this one:
                         # a symbol that is absent from the file now was "not loaded from sdkconfig".
@@ -1376,6 +1381,10 @@ class Kconfig(object):
 
                 for choice in self.unique_choices:
                     choice._was_set = False
+                    if choice._kconfig_defaults is not None:
+                        choice.defaults = choice._kconfig_defaults
+                        choice._kconfig_defaults = None
+                        choice._rec_invalidate()
 
             for sym in self.unique_defined_syms:
                 sym.present_in_current_sdkconfig = False
@@ -4434,6 +4443,7 @@ class Symbol:
         "ranges",
         "rev_dep",
         "_sdkconfig_value",
+        "_kconfig_defaults",
         "selects",
         "_user_value",
         "weak_rev_dep",
@@ -4716,6 +4726,13 @@ class Symbol:
         self._loaded_as_default = False
 
         """
+        kconfig_defaults:
+            The defaults from the Kconfig files while a default value stored in sdkconfig is injected in their
+            place (see _inject_default_value()); None otherwise.
+        """
+        self._kconfig_defaults = None
+
+        """
         is_deprecated:
             Whether the symbol is deprecated (obtained from sdkconfig's "Deprecated options" section).
             Deprecated symbols are not written out, but are used when e.g. expressions are evaluated
@@ -4796,6 +4813,8 @@ class Symbol:
         dependency = self.kconfig.y
         for node in self.nodes:
             dependency = self.kconfig._make_and(dependency, node.dep)
+        if self._kconfig_defaults is None:
+            self._kconfig_defaults = self.defaults
         self.defaults = [(sym_for_val, dependency)]
 
         # Invalidate recursively to propagate the change to dependent symbols
@@ -5960,6 +5979,7 @@ class Choice:
         "_present_in_current_sdkconfig",
         "_invalidating",
         "defaults",
+        "_kconfig_defaults",
         "direct_dep",
         "_defaults_resolved",
         "is_constant",
@@ -5984,6 +6004,9 @@ class Choice:
     def __init__(self, kconfig: Kconfig, name: Optional[str] = None, direct_dep: Optional[Symbol] = None):
         self.kconfig = kconfig
         self.name = name
+
+        # The defaults from the Kconfig files while a stored default selection is injected in their place
+        self._kconfig_defaults = None
 
         """
         Same as Symbol.direct_dep, but for the choice itself.
@@ -6225,6 +6248,8 @@ class Choice:
         dependency = self.kconfig.y
         for node in self.nodes:
             dependency = self.kconfig._make_and(dependency, node.dep)
+        if self._kconfig_defaults is None:
+            self._kconfig_defaults = self.defaults
         self.defaults = [(sym, dependency)]
         # Invalidate recursively to propagate the change to dependent symbols
         self._rec_invalidate()
